@@ -22,4 +22,8 @@ CASES = [
     dict(expect="silent", desc="trampoline: cancelled bound to local", edits=[dict(file=TR,
          old="                if not item.is_cancelled():\n                    item.invoke()",
          new="                cancelled = item.is_cancelled()\n                if not cancelled:\n                    item.invoke()")]),
+    dict(expect="fire", desc="seed C29-r3/1: ScheduledItem.invoke skips storing the result when cancelled during its own run", names="S1-invoke-guard", edits=[dict(file="reactivex/scheduler/scheduleditem.py",
+         old="        self.disposable.disposable = ret", new="        if not self.is_cancelled():\n            self.disposable.disposable = ret")]),
+    dict(expect="fire", desc="mutant: from_iterable's dispose writes False into the polled flag", names="E8-producer-poll", edits=[dict(file="reactivex/observable/fromiterable.py",
+         old="            nonlocal disposed\n            disposed = True", new="            nonlocal disposed\n            disposed = False")]),
 ]
